@@ -46,7 +46,7 @@ PROP = dict(
          "accepted and >= 300 (unscaled) / >= 30 (eps) comparisons or a complete history per cell (hyst) were made; distinct = "
          "distinct deck text.",
     stages=[dict(harness="c15_satfunc", flavour="plain", cases={Q: 60000, T: 5000000}, timeout={Q: 900, T: 10800}, omp_threads=1),
-            dict(id="c15_satfunc_asan", harness="c15_satfunc", flavour="asan", cases={Q: 3000, T: 150000},
+            dict(id="c15_satfunc_asan", harness="c15_satfunc", flavour="asan", cases={Q: 3000, T: 400000},
                  timeout={Q: 900, T: 10800}, omp_threads=1)],
     min_nontrivial={Q: 55000, T: 4500000},
     coverage_floor=[("c15_satfunc", "comparisons", {Q: 500000000, T: 40000000000}),
@@ -75,5 +75,8 @@ PROP = dict(
                  "with a margin of 0.02 between distinct anchors",
                  "imbibition tables share connate/maximum saturations and the maximum non-wetting kr with their drainage table "
                  "and have larger critical non-wetting saturations",
-                 "pressures are compared relative to the largest capillary pressure of the table (1e-9)"],
+                 "pressures are compared relative to the largest capillary pressure of the table (1e-9)",
+                 "order comparisons carry a rounding slack of 1e-12 (tabulated curves; 1e-10 for the oil value of the three-phase "
+                 "route, where a connate saturation read one ulp off by the deck parser leaks the other oil curve with weight "
+                 "<= 1e-16/2e-5) and 1e-10 (scanning curves)"],
 )
